@@ -10,4 +10,17 @@ NOTES = ("Single entry point ./check <Cxx> --tier quick|thorough [--replay f]. E
          "re-checks the Coq theorems of the property (full .vo), runs the correspondence between the extracted model and the "
          "implementation, and writes evidence/<Cxx>.json. known_findings.jsonl lists recorded defects. See DESIGN.md.")
 NOT_CLAIMED = {}
-CHECKS = {}
+PROOF_NOTE = ("Trusted: Coq 8.16.1 kernel (vm_compute, no native_compute), no axioms (Print Assumptions of every property theorem is recorded in the "
+              "evidence), extraction via ExtrOcamlBasic + OCaml glue in ml/, the C++ harness and python generator/differ/oracle of the check. "
+              "Theorems speak about the Gallina model; the model is tied to /repo by the correspondence run of this check (and generated tables where used).")
+CHECKS = {
+    "C17": {
+        "category": "proof",
+        "technique": "Coq theorems over a Gallina model of the codecs + differential correspondence (extracted OCaml model vs. real functions) + independent architectural oracle",
+        "text": "Round-trip and refusal theorems for every offset (all 64-bit values, any bit count/shift/discard) of the contiguous signed/unsigned formats and ADR/ADRP, "
+                "write_offset bit preservation, exhaustive-by-reflection completeness of logical immediates (both widths) and fp8 (both directions, every value), add/sub exactness, H:L:M; "
+                "the model is run against CodeWriterUtils/arm::Utils/a64 helpers of the working tree on whole-field sweeps. Mov-wide sequences, A32/T32 formats and logical-immediate "
+                "soundness are covered by correspondence + python architectural oracle only (stated partial in DESIGN.md).",
+        "note": PROOF_NOTE,
+    },
+}
